@@ -250,6 +250,40 @@ pub fn run_solver_case(case: &SolverCase) -> SolverCaseRun {
     }
 }
 
+/// Whether every run of the case is bounded by the simulated clock's read budget. The
+/// no-limit microlp entry points never read the clock inside their loops, so they are only
+/// safe on a model whose limit-taking twin terminates within the budget (same pivoting).
+/// Search and replay only ever build safe cases; the minimiser checks its candidates.
+pub fn hang_safe(case: &Case) -> bool {
+    let Case::Solver(c) = case else {
+        return true;
+    };
+    let mut need_direct = false;
+    let mut need_builder = false;
+    for r in &c.runs {
+        if r.entry.microlp_backed() && !r.entry.takes_options() {
+            if r.entry.is_builder() {
+                need_builder = true;
+            } else {
+                need_direct = true;
+            }
+        }
+    }
+    let budget = 300 + 8 * c.model.int_points().min(4096);
+    let probe = |entry| {
+        let cfg = RunCfg {
+            entry,
+            gap: solvers::GapSpec::Unset,
+            limit: solvers::LimitSpec::HUGE,
+            sched: solvers::Sched::Frozen,
+            budget,
+        };
+        !matches!(solvers::run(&c.model, &cfg).outcome, Outcome::NoProgress { .. })
+    };
+    (!need_direct || probe(solvers::Entry::MilpWith))
+        && (!need_builder || probe(solvers::Entry::BuilderMicrolp))
+}
+
 pub fn run_case(case: &Case) -> Vec<Violation> {
     match case {
         Case::Solver(c) => run_solver_case(c).violations,
